@@ -384,6 +384,9 @@ class Ctx:
         evpath = os.path.join(ROOT, "evidence", self.pid + ".json")
         if self.replay_mode:      # a replay never overwrites the evidence of a full run
             evpath = os.path.join(self.work, "evidence-replay.json")
+        elif os.environ.get("VERIF_EVIDENCE_TO_WORK"):
+            # runs against a deliberately changed tree (tools/sweep_seeded.py) keep the evidence of the unchanged tree intact
+            evpath = os.path.join(self.work, "evidence-sweep.json")
         with open(evpath, "w") as f:
             json.dump(ev, f, indent=1)
         log("[done] %s %s: states=%d transitions=%d traces=%d events=%d distinct=%d violations=%d known=%d (%.1fs)" % (
